@@ -17,6 +17,25 @@ func checkC12(c *Ctx, r *Report) {
 	// C12.c — the converse direction, as far as it is structural: a symbol the grammar file introduces must reach the
 	// declaration list, or the rule visitor rejects a usable grammar as using an undefined symbol (prerequisite C11.a)
 	includeSome(r, "C12.c", func(sub *Report) { c11a(c, sub) }, "literal-tokens-flushed")
+	// … and a declared token stays a token: an identifier's kind is given where its entry is created and never
+	// re-assigned — a %type (or any later line) naming a token must not turn it into a nonterminal without rules,
+	// which the rule-less test would then refuse
+	if fv := lookupField(c, "Parser", "Idendity", "IDTyp"); fv == nil {
+		r.Undecided("C12.c", "WHO-WRITES", "Parser.Idendity.IDTyp", "-", "field not found")
+	} else {
+		var bad []string
+		n := 0
+		for _, w := range fieldWrites(c, fv) {
+			if w.op == ":" {
+				n++
+				continue
+			}
+			bad = append(bad, fmt.Sprintf("%s at %s (%s)", w.fn, c.pos(w.pos), w.op))
+		}
+		r.Check(len(bad) == 0 && n >= 6, "C12.c", "WHO-WRITES", "Parser.Idendity.IDTyp/kind-fixed-at-creation", c.pos(fv.Pos()),
+			fmt.Sprintf("the kind of an identifier is written only where its entry is created (%d composite literals)", n),
+			"the kind of an existing identifier is re-assigned by "+strings.Join(bad, "; ")+": a declared token can become a nonterminal without rules (or the reverse), and a usable grammar is refused")
+	}
 	// C12.a
 	c12Flows(c, r)
 	if f := c.need(r, "C12.a", "Grammar", "Grammar", "CalculateCanTerminate"); f != nil {
